@@ -33,7 +33,7 @@ def burst_cases(rnd, n):
                 ev.append("R.%d.%d.0.%d" % (rnd.choice((1, 2)), 60 + tok, rnd.choice((0, 1, 2, 3, 4, 6, 7))))
             elif r < 0.36:
                 ev.append("D.%d" % rnd.choice((1, 2)))
-        cases.append(("burst%d" % i, (0, 50, -1), ev))
+        cases.append(("pipe-burst%d" % i, (0, 50, -1), ev))
     return cases
 
 
@@ -43,7 +43,7 @@ def gen_cases(tier, rnd):
     n_plain, n_timed, n_burst = (1500, 30, 150) if tier == "quick" else (30000, 600, 3000)
     for i in range(n_plain):
         cfg = (0, rnd.choice((2, 3, 50, 50)), -1)
-        cases.append(("gen%d" % i, cfg, rg.gen_history(rnd, cfg, "c05", rnd.randint(6, 18))))
+        cases.append((("pipe-gen%d" if i % 3 == 0 else "gen%d") % i, cfg, rg.gen_history(rnd, cfg, "c05", rnd.randint(6, 18))))
     for i in range(n_timed):
         cfg = (0, 50, rg.TIMEOUT)
         cases.append(("timed%d" % i, cfg, rg.gen_history(rnd, cfg, "c05", rnd.randint(5, 10))))
@@ -72,7 +72,7 @@ def run(ctx):
                 "after each event every live client is drained behind a driver round trip, so absence at third parties is observed.  "
                 "non-trivial = at least one delivery or bus error; distinct = distinct (configuration, event list)",
         "samples": samples[:10], "input_distribution": r["dist"], "traces_validated_against_impl": len(cases) - r["tainted"],
-        "steps_compared": r["steps"], "disagreements_checked": r["disagreements"], "timing_unusable": r["tainted"],
+        "steps_compared": r["steps"], "sends_written_back_to_back": r["pipelined"], "disagreements_checked": r["disagreements"], "timing_unusable": r["tainted"],
         "illformed_histories": r["illformed"], "exhaustive": False,
         "explanation": "theorems: every send yields exactly one output, the message to the primary owner in the pre-state or one error to the sender; "
                        "nobody else gets it; FIFO per (sender, recipient); at most one error per serial on histories without fds; "
